@@ -402,6 +402,22 @@ theorem roc_ends (eps : α) (samples : List (α × Bool)) (hnn : ∀ x ∈ sampl
       split <;> simp
   · simp [div_self hpos, div_self hneg]
 
+/-- **the ROC curve is monotone**: both coordinates are non-decreasing along the curve -/
+theorem roc_monotone (eps : α) (samples : List (α × Bool)) (hnn : ∀ x ∈ samples, 0 ≤ x.1) :
+    (roc eps none samples).1.Pairwise fun p q => p.1 ≤ q.1 ∧ p.2 ≤ q.2 := by
+  rw [roc_curve_eq eps samples hnn]
+  obtain ⟨htp, hfp⟩ := rocFold_counts eps (sortByScore samples) { tp := 0, fp := 0, s0 := none, pts := [], thr := [] }
+  simp only [zero_add] at htp hfp
+  have hmono := rocFold_mono eps (sortByScore samples) { tp := 0, fp := 0, s0 := none, pts := [], thr := [] }
+    (by simp)
+  simp only
+  refine List.Pairwise.map _ ?_ hmono
+  intro a b hab
+  have h1 := posSum_one_nonneg (sortByScore samples)
+  have h2 := negSum_one_nonneg (sortByScore samples)
+  rw [← htp] at h1; rw [← hfp] at h2
+  exact ⟨div_le_div_of_nonneg_right hab.1 h1, div_le_div_of_nonneg_right hab.2 h2⟩
+
 example : (roc (0 : Rat) none [(0, true), (0, false), (1/2, false), (1, true)]).1 =
     [(0, 0), (1/2, 1/2), (1/2, 1), (1, 1)] := by decide +kernel
 
